@@ -15,6 +15,7 @@
 package tcell
 
 import (
+	"bytes"
 	"sync"
 	"unicode/utf8"
 
@@ -402,6 +403,9 @@ outer:
 						s.postEvent(NewEventKey(KeyRune, r2, ModNone))
 						n += n2
 					}
+				} else if s.isReplacementChar(b[:nin]) {
+					// U+FFFD itself, not the mark of a decoding failure
+					s.postEvent(NewEventKey(KeyRune, r, ModNone))
 				}
 				b = b[nin:]
 				continue outer
@@ -413,6 +417,17 @@ outer:
 	}
 
 	return !failed
+}
+
+// isReplacementChar reports whether b is the encoding of U+FFFD in the
+// screen's character set.
+func (s *simscreen) isReplacementChar(b []byte) bool {
+	s.Lock()
+	defer s.Unlock()
+	enc := make([]byte, 8)
+	s.encoder.Reset()
+	n, _, err := s.encoder.Transform(enc, []byte("\ufffd"), true)
+	return err == nil && n > 1 && bytes.Equal(enc[:n], b)
 }
 
 func (s *simscreen) Sync() {
